@@ -98,6 +98,27 @@ class State:
         if r != z3.unsat:
             raise Unsupported('bitwise operator on an operand not provably within %d bits' % V.BVW)
 
+    def side_assume_one_nonneg(self, x, y, hi):
+        for v in (x, y):
+            c = z3.And(v >= 0, v < hi)
+            self.solver.push()
+            self.solver.add(z3.Not(c))
+            r = self.solver.check()
+            self.solver.pop()
+            if r == z3.unsat:
+                return
+        raise Unsupported('& with two possibly negative operands')
+
+    def provable(self, c):
+        c = z3.simplify(c)
+        if z3.is_true(c):
+            return True
+        self.solver.push()
+        self.solver.add(z3.Not(c))
+        r = self.solver.check()
+        self.solver.pop()
+        return r == z3.unsat
+
     def check_feasible(self):
         r = self.solver.check()
         if r == z3.unsat:
@@ -114,6 +135,9 @@ class State:
             return True
         if z3.is_false(cond):
             return False
+        from . import lang as _L
+        if _L._INQ[0] > 0:
+            raise Unsupported('symbolic branch inside a quantifier body (use L.ite in spec functions)')
         self.decisions += 1
         if self.decisions > 4000:
             raise Unsupported('path too long (more than 4000 symbolic decisions)')
@@ -230,9 +254,13 @@ def explore(unit, make_E, max_paths=20000):
                     stack.append(st.choices[:k] + [(alt, 'branch-alt', ent[2])])
             elif not ent[1]:
                 stack.append(st.choices[:k] + [(not ent[0], False)])
+        # obligations recorded before a path was cut (loop cut, assume(False)) were recorded under the
+        # path condition of that moment and count as well
+        res.obligs.extend(st.obligs)
+        for o in st.obligs:
+            o.meta['_inputs'] = st.inputs
         if finished:
             res.paths += 1
-            res.obligs.extend(st.obligs)
             res.covers |= st.covers
             for a in st.assumed_calls:
                 if a not in res.assumed:
@@ -240,8 +268,6 @@ def explore(unit, make_E, max_paths=20000):
             for a in st.unknown_calls:
                 if a not in res.unknown_calls:
                     res.unknown_calls.append(a)
-            for o in st.obligs:
-                o.meta['_inputs'] = st.inputs
         if res.paths + res.aborted > max_paths:
             res.out_of_reach = 'out of reach: more than %d paths' % max_paths
             break
